@@ -92,7 +92,8 @@ def gen(tier, rng):
     for t in ctv:
         cases.append(f"tparse\tcte\t{hexs(t) if t else '-'}")
     for ct in ["text/plain", "text/plain; charset=utf-8", "multipart/mixed; boundary=\"a b\"", "application/octet-stream", "TEXT/HTML; Charset=\"UTF-8\"",
-               "image/png; name=\"x.png\"", "text/plain; format=flowed; delsp=yes", "not a type", "text/", "a/b; c=d; e=\"f g\""]:
+               "image/png; name=\"x.png\"", "text/plain; format=flowed; delsp=yes", "not a type", "multipart/mixed; boundary=\"a =?b?= c\"",
+               "multipart/related; boundary=\"=?utf-8?q?x?= y\"; type=\"text/html\"", "application/x-t; name=\"=?utf-8?b?aGk=?=\"", "text/", "a/b; c=d; e=\"f g\""]:
         cases.append(f"typed\tctype\t{hexs(ct)}\t-")
     # Date values offered to `Date::parse`: valid ones (both zone spellings), every single-octet mutation of one, wrong
     # weekdays, out-of-range fields, the other two httpdate forms, padding, non-ASCII
